@@ -256,4 +256,24 @@ theorem x87_scalar_takes_no_register (ai : ArgInfo) (av : Avail) :
   · rw [c2mArg_sc]; rfl
   · rfl
 
+/-- arrays as members: `classify_arg` (TM_ARR) replicates the eightbyte classes of the element over the
+array (`subtypes[i % n_el_qwords]`), which is the psABI classification of the elements at their
+positions; `class_meets_sysv_partial` covers every array of one element, of elements of 8k bytes
+and of scalars (`arrOk`).  Instances with a 16-byte element of two different classes:
+`struct {struct {long; double;} a[1];}` INTEGER,SSE — `{double; long;}[1]` SSE,INTEGER —
+`long double[1]` X87,X87UP (returned in st0) — `{int; float;}[2]` INTEGER,INTEGER -/
+theorem class_array_replicates_element :
+    let sLD := CTy.agg false (.cons .plain (.sc .long) (.cons .plain (.sc .double) .nil))
+    let sDL := CTy.agg false (.cons .plain (.sc .double) (.cons .plain (.sc .long) .nil))
+    let sIF := CTy.agg false (.cons .plain (.sc .int) (.cons .plain (.sc .float) .nil))
+    let w := fun (t : CTy) => CTy.agg false (.cons .plain t .nil)
+    c2mClassify (w (.arr 1 sLD)) = some [.int, .sse] ∧ sysvClass sysvLay (w (.arr 1 sLD)) = [.int, .sse]
+    ∧ c2mClassify (w (.arr 1 sDL)) = some [.sse, .int] ∧ sysvClass sysvLay (w (.arr 1 sDL)) = [.sse, .int]
+    ∧ c2mClassify (w (.arr 1 (.sc .ldouble))) = some [.x87, .x87up]
+    ∧ sysvClass sysvLay (w (.arr 1 (.sc .ldouble))) = [.x87, .x87up]
+    ∧ c2mRet (w (.arr 1 (.sc .ldouble))) = .regs [.x87]
+    ∧ c2mClassify (w (.arr 2 sIF)) = some [.int, .int] ∧ sysvClass sysvLay (w (.arr 2 sIF)) = [.int, .int]
+    ∧ clsAligned (w (.arr 1 sLD)) = true ∧ clsAligned (w (.arr 2 sIF)) = true := by
+  decide +kernel
+
 end MirVerif.C08
